@@ -135,12 +135,18 @@ PROPS["C13"] = dict(
 )
 PROPS["C14"] = dict(
     title="Float write options control digits and notation",
-    level_text="The decimal emit functions (scientific / positive / negative exponent) and the shared rounding helpers are "
+    verus_quick=[_vc("wf_round")],
+    level_text="Verus proves, on the extracted real code and for digit strings of ANY length, that truncate_and_round_decimal "
+               "leaves exactly the digit string rounded to max_significant_digits - half-to-even under Round, toward zero under "
+               "Truncate, with the carry case reported - and that round_up is 'digit string + 1'. The decimal emit functions (scientific / positive / negative exponent) and the shared rounding helpers are "
                "checked on the real code against an oracle that RE-READS the bytes with the reference tokenizer: exact "
                "rational value == default digits rounded half-even (or truncated) to max_significant_digits, carry moves "
                "the exponent, at least min_significant_digits unless trimmed, '.0' removed only by trim_floats, exponent "
                "notation only from the scientific writer. Bounded in mantissa digits / exponent / digit options.",
-    assumptions=["bounded: mantissas up to 4-5 digits, |sci_exp| <= 6, digit options <= 7; notation *choice* (break points), binary/hex/radix writers and compact not covered yet"],
+    assumptions=["Kani part bounded: mantissas up to 4-5 digits, |sci_exp| <= 6, digit options <= 7; notation choice (break points) checked at emit level for "
+                 "min_significant_digits 58..59 and for every finite f32 in the thorough tier; binary/hex/radix digit rounding and compact not covered",
+                 "Verus unit wf_round: the two Options getters are passed as parameters (R6); `slice.iter().any(|&x| x != K)` is replaced by the verified "
+                 "helper vx_any_ne (R10: semantics of Iterator::any on slices trusted)"],
 )
 PROPS["C17"] = dict(
     title="The allocating lexical API equals lexical-core and only emits ASCII",
